@@ -44,7 +44,9 @@ func (r *balanceSingleReporter) Process(ln *shared.LogNode) error {
 			}
 		} else {
 			if el.Name == r.singleElement {
-				r.root.AddDeep(shared.NewElement(el.Name, 0), shared.DefaultCategorySeparator)
+				r.root.AddDeep(shared.NewElement(el.Name, el.Value), shared.DefaultCategorySeparator)
+				// Add to grand total
+				r.total += el.Value
 			}
 		}
 	}
